@@ -22,7 +22,8 @@ from mapproxy.compat.image import Image, ImageColor, ImageChops, ImageMath
 from mapproxy.compat.image import has_alpha_composite_support
 from mapproxy.image import BlankImageSource, ImageSource
 from mapproxy.image.opts import create_image, ImageOptions
-from mapproxy.image.mask import mask_image
+from mapproxy.image.mask import mask_image, mask_polygons, image_mask_from_geom  # noqa
+from mapproxy.srs import SRS
 
 import logging
 log = logging.getLogger('mapproxy.image')
@@ -137,10 +138,11 @@ class LayerMerger(LayerMerger):
 
         # apply global clip coverage
         if coverage:
+            # paint the background over everything outside of the coverage,
+            # pasting the result with its own alpha as mask would apply the alpha twice
             bg = create_image(size, image_opts)
-            mask = mask_image(result, bbox, bbox_srs, coverage)
-            bg.paste(result, (0, 0), mask)
-            result = bg
+            mask = image_mask_from_geom(size, bbox, mask_polygons(bbox, SRS(bbox_srs), coverage))
+            result.paste(bg, (0, 0), mask)
 
         return ImageSource(result, size=size, image_opts=image_opts, cacheable=cacheable)
 
